@@ -257,24 +257,23 @@ func witnessScript(d *dg.Design, s *dg.Service, m *dg.Method, eff []effErr) []sc
 		case d.Name == "witness1" && e.Def.Name == "conflict":
 			// a goa service error carrying the name of an error declared with a custom type
 			out = append(out, scase{Class: "service_named_like_custom", ErrName: "conflict", Err: &rt.ErrSpec{Kind: "service", Name: "conflict", Message: "wrong type", ID: "m1"}})
+			// content negotiation classes (recorded findings): text encoders refuse error bodies,
+			// gob drops zero-valued fields
+			zv := &dg.Val{K: "object"}
+			zv.Set("name", &dg.Val{K: "string", S: "n1"})
+			zv.Set("code", &dg.Val{K: "int", I: 0})
+			for _, a := range []string{"text/html", "text/plain"} {
+				out = append(out, scase{Class: "custom", ErrName: "conflict", Accept: a, Sent: zv, Err: &rt.ErrSpec{Kind: "custom", Name: hubKey("conflict"), Value: d.ToTree(e.Def.T, zv)}})
+				out = append(out, scase{Class: "service_undeclared", ErrName: undeclaredName, Accept: a, Err: &rt.ErrSpec{Kind: "service", Name: undeclaredName, Message: "m", ID: "t1", Temporary: true}})
+			}
+			out = append(out, scase{Class: "service_undeclared", ErrName: undeclaredName, Accept: "application/gob", Err: &rt.ErrSpec{Kind: "service", Name: undeclaredName, Message: "m", ID: "g3", Temporary: true}})
+			out = append(out, scase{Class: "custom", ErrName: "conflict", Accept: "application/gob", Sent: zv, Err: &rt.ErrSpec{Kind: "custom", Name: hubKey("conflict"), Value: d.ToTree(e.Def.T, zv)}})
 			for _, det := range []string{" lead", "trail ", "", "two\nlines"} {
 				v := &dg.Val{K: "object"}
 				v.Set("name", &dg.Val{K: "string", S: "n1"})
 				v.Set("detail", &dg.Val{K: "string", S: det})
 				out = append(out, scase{Class: "custom", ErrName: "conflict", Sent: v, Err: &rt.ErrSpec{Kind: "custom", Name: hubKey("conflict"), Value: d.ToTree(e.Def.T, v)}})
 			}
-		case d.Name == "witness0" && e.Def.Name == "fail_a":
-			// content negotiation classes (recorded findings): text encoders refuse error bodies,
-			// gob drops zero-valued fields
-			v := &dg.Val{K: "object"}
-			v.Set("why", &dg.Val{K: "string", S: "because"})
-			v.Set("n", &dg.Val{K: "int", I: 0})
-			for _, a := range []string{"text/html", "text/plain"} {
-				out = append(out, scase{Class: "custom", ErrName: "fail_a", Accept: a, Sent: v, Err: &rt.ErrSpec{Kind: "custom", Name: hubKey("fail_a"), Value: d.ToTree(e.Def.T, v)}})
-				out = append(out, scase{Class: "service_undeclared", ErrName: undeclaredName, Accept: a, Err: &rt.ErrSpec{Kind: "service", Name: undeclaredName, Message: "m", ID: "t1", Temporary: true}})
-			}
-			out = append(out, scase{Class: "service_undeclared", ErrName: undeclaredName, Accept: "application/gob", Err: &rt.ErrSpec{Kind: "service", Name: undeclaredName, Message: "m", ID: "g3", Temporary: true}})
-			out = append(out, scase{Class: "custom", ErrName: "fail_a", Accept: "application/gob", Sent: v, Err: &rt.ErrSpec{Kind: "custom", Name: hubKey("fail_a"), Value: d.ToTree(e.Def.T, v)}})
 		case d.Name == "witness1" && e.Def.Name == "no_body":
 			out = append(out, scase{Class: "declared", ErrName: "no_body", Err: &rt.ErrSpec{Kind: "declared", Name: "no_body", Message: "", ID: "i1"}})
 			out = append(out, scase{Class: "declared", ErrName: "no_body", Err: &rt.ErrSpec{Kind: "declared", Name: "no_body", Message: "two\nlines", ID: "i2"}})
